@@ -15,16 +15,25 @@ from .c13 import assoc_event
 
 
 def exc_ctor_map(repo, name):
-    """parameter -> attribute for an exception class of exceptions.py"""
+    """parameter -> attribute for an exception class of exceptions.py: the attributes of ``self`` that hold a constructor
+    parameter unchanged when ``__init__`` returns (direct assignments, helper methods, ``setattr`` over a table of pairs)"""
+    from ..sym import SymClient, empty_state
     c = repo.cls('exceptions', name)
     init = c.find_method('__init__')
     out = {}
     if init is None:
         return [], out
     params = init.params[1:]
-    for n in ast.walk(init.node):
-        if isinstance(n, ast.Assign) and norm(n.targets[0]).startswith('self.') and isinstance(n.value, ast.Name):
-            out[n.value.id] = norm(n.targets[0])[5:]
+    cl = SymClient(repo, init, event_of=lambda *a: None, inline=lambda fi: fi.module.name == 'exceptions' and fi.name != '__init__')
+    o = cl.run(empty_state())
+    finals = [s for s, _r in o.ret] + list(o.fall)
+    for p_ in params:
+        attrs = None
+        for s in finals:
+            here = {f_ for t_, f_, v_ in s.heap if t_ == 'EXT:self' and v_ == p_}
+            attrs = here if attrs is None else attrs & here
+        if attrs:
+            out[p_] = sorted(attrs)[0]
     return params, out
 
 
